@@ -47,6 +47,15 @@ theorem view_defname (s : St) (k : Nat) (sc : Name) : view (step s (.defname k s
     all_goals first | (cases hd; rfl) | cases hd
   · rfl
 
+theorem view_deldef (s : St) (k : Nat) (sc : Name) : view (step s (.deldef k sc)).1 = view s := by
+  simp only [step]
+  split
+  · rename_i s' hd
+    unfold deleteDefinedName at hd
+    repeat' split at hd
+    all_goals first | (cases hd; rfl) | cases hd
+  · rfl
+
 theorem sim_setcell (s : St) (hi : Inv s) (hp : PB s) (n : Name) (v : Nat) : Sim s (.setcell n v) := by
   unfold Sim
   simp only [step, Spec.step, Spec.setCell, setCell]
@@ -703,12 +712,14 @@ theorem sim_step (s : St) (op : Op) (hi : Inv s) (hp : PB s) :
   | group ns => exact (sim_group s hi hp ns).1
   | ungroup => exact (sim_ungroup s hi hp).1
   | defname k sc => exact (view_defname s k sc).symm
+  | deldef k sc => exact (view_deldef s k sc).symm
   | setcell n v => exact (sim_setcell s hi hp n v).1
   | save => exact (sim_save s).1
   | observe => exact (sim_observe s).1
 
 /-- acceptance agrees too (SetDefinedName is not described by the list model) -/
-theorem sim_accept (s : St) (op : Op) (hi : Inv s) (hp : PB s) (hop : ∀ k sc, op ≠ .defname k sc) :
+theorem sim_accept (s : St) (op : Op) (hi : Inv s) (hp : PB s)
+    (hop : ∀ k sc, op ≠ .defname k sc ∧ op ≠ .deldef k sc) :
     (Spec.step (view s) op).2 = (step s op).2.isNone := by
   cases op with
   | new n => exact (sim_new s hi hp n).2
@@ -720,7 +731,8 @@ theorem sim_accept (s : St) (op : Op) (hi : Inv s) (hp : PB s) (hop : ∀ k sc, 
   | active i => exact (sim_active s hi hp i).2
   | group ns => exact (sim_group s hi hp ns).2
   | ungroup => exact (sim_ungroup s hi hp).2
-  | defname k sc => exact absurd rfl (hop k sc)
+  | defname k sc => exact absurd rfl (hop k sc).1
+  | deldef k sc => exact absurd rfl (hop k sc).2
   | setcell n v => exact (sim_setcell s hi hp n v).2
   | save => exact (sim_save s).2
   | observe => exact (sim_observe s).2
